@@ -119,6 +119,24 @@ func explore(l *loaded, h HarnessCfg, params map[string]int64, deadline time.Dur
 		return nil, err
 	}
 	want := defaultInits(h.Pkg, h.Init)
+	// every package of the module that the harness package imports (transitively)
+	var addDeps func(p *ssa.Package)
+	seenDeps := map[string]bool{}
+	addDeps = func(p *ssa.Package) {
+		if p == nil || seenDeps[p.Pkg.Path()] {
+			return
+		}
+		seenDeps[p.Pkg.Path()] = true
+		if strings.HasPrefix(p.Pkg.Path(), modulePath) && !strings.HasSuffix(p.Pkg.Path(), "internal/verifnd") {
+			want[p.Pkg.Path()] = true
+		}
+		for _, imp := range p.Pkg.Imports() {
+			if strings.HasPrefix(imp.Path(), modulePath) {
+				addDeps(l.pkgs[imp.Path()])
+			}
+		}
+	}
+	addDeps(f.Pkg)
 	inits := initOrder(l, f.Pkg, want)
 	var initPkgs []string
 	for p := range want {
